@@ -54,6 +54,11 @@ func init() {
 // new / encode into a fresh buffer / decode into a fresh receiver, N values per type.
 func driveRoundtrip(c *DriverCtx, mode Mode) error {
 	for _, t := range c.types() {
+		for _, v := range c.G.AgreeVariants(t, 4) {
+			if err := c.Run([]Op{{Op: "new", O: "m", V: v}, {Op: "encode", B: "b", O: "m"}, {Op: "decode", B: "b", O: "r", T: t, Fresh: true, Tag: "fields-agree"}}); err != nil {
+				return err
+			}
+		}
 		for i := 0; i < c.N; i++ {
 			v := c.G.Value(t, mode)
 			ops := []Op{
@@ -728,6 +733,14 @@ func driveAlias(c *DriverCtx) error {
 			}
 			ops = append(ops, Op{Op: "load", B: "own", Bytes: ev.Post}, Op{Op: "decode", B: "own", O: "r2", T: t, Fresh: true},
 				Op{Op: "scribble", B: "own", K: 3, Tag: "owner-overwrites"}, Op{Op: "observe", O: "r2"})
+			if err := c.Run(ops); err != nil {
+				return err
+			}
+		}
+		// two fields that agree (an explicit length next to a length-prefixed text, a count next to a repeating group)
+		for _, v := range c.G.AgreeVariants(t, 6) {
+			ops := []Op{{Op: "new", O: "m", V: v}, {Op: "encode", B: "b", O: "m"}, {Op: "decode", B: "b", O: "r", T: t, Fresh: true, Tag: "fields-agree"},
+				{Op: "scribble", B: "b", K: 64, Tag: "pool-reuse"}, {Op: "observe", O: "r"}}
 			if err := c.Run(ops); err != nil {
 				return err
 			}
